@@ -28,3 +28,34 @@ func HarnessC15TemplaterRenderIsolated() {
 	vObserve("len", int64(len(p1.Body)))
 	vReach("end")
 }
+
+// ---- C15/C09: every step is rendered from its own templates. Two steps of (possibly different)
+// scenarios whose names contain '_' (so that joined names may coincide), headers that are called
+// like a request part ("url", "body"); text and html templater; each step rendered twice (the second
+// time from the template cache).
+func HarnessC15TemplaterOwnTemplates() {
+	var t Templater = NewTextTemplater()
+	if vNondetBool("html") {
+		t = NewHTMLTemplater()
+	}
+	names := [][4]string{{"a_b", "c", "a", "b_c"}, {"s", "c", "s", "d"}, {"s", "c", "t", "c"}}[vConcretize(vNondetInt("names", 0, 2))]
+	hdr := []string{"H", "url", "body"}[vConcretize(vNondetInt("hdr", 0, 2))]
+	u1, u2 := "/"+string(rune(vNondetInt("u", 'a', 'z'))), "/"+string(rune(vNondetInt("u", 'a', 'z')))
+	h1, h2 := "v"+string(rune(vNondetInt("h", 'a', 'z'))), "w"+string(rune(vNondetInt("h", 'a', 'z')))
+	b1, b2 := "b"+string(rune(vNondetInt("b", 'a', 'z'))), "c"+string(rune(vNondetInt("b", 'a', 'z')))
+	for round := 0; round < 2; round++ {
+		p1 := &gun.RequestParts{URL: u1, Method: "POST", Headers: map[string]string{hdr: h1}, Body: []byte(b1)}
+		p2 := &gun.RequestParts{URL: u2, Method: "POST", Headers: map[string]string{hdr: h2}, Body: []byte(b2)}
+		err1 := t.Apply(p1, map[string]any{}, names[0], names[1])
+		err2 := t.Apply(p2, map[string]any{}, names[2], names[3])
+		vCheck("T4.apply.ok", err1 == nil && err2 == nil)
+		if err1 != nil || err2 != nil {
+			return
+		}
+		vCheck("T4.url.from.own.template", p1.URL == u1 && p2.URL == u2)
+		vCheck("T4.header.from.own.template", p1.Headers[hdr] == h1 && p2.Headers[hdr] == h2)
+		vCheck("T4.body.from.own.template", string(p1.Body) == b1 && string(p2.Body) == b2)
+	}
+	vObserve("len", int64(len(u1)))
+	vReach("end")
+}
